@@ -35,3 +35,49 @@ def in_cycle(B, bb):
         if bb in B.reachable_from(s):
             return True
     return False
+
+
+def handle_path(rep, F, cg, rule='HANDLE-PATH'):
+    """write / append handles carry the resolved path they were opened with"""
+    from panics import sdesc_operand, sdesc_place, skey_call
+    from mir import callee_of, op_local, op_place
+    rep.rule(rule, 'the MemfsFile handle returned by Memfs::write / Memfs::append has its `path` set to Some(abs(path argument)) by an unconditional assignment '
+             '(or struct literal) before it is boxed: the write-back target of a handle is always the path it was opened with, never a path inherited from the stored record')
+    TR = 'sys::fs::vfs::VirtualFileSystem'
+    MEMFS = 'sys::fs::memfs::vfs::Memfs'
+    want = 'Some(_abs(arg1,write_guard(arg1),arg2)?)'
+    for m in ('write', 'append'):
+        fn = '<%s as %s>::%s' % (MEMFS, TR, m)
+        if fn not in F.bodies:
+            rep.add(rule, 'handlepath:%s' % m, '%s exists' % fn, False, detail='anchor missing')
+            continue
+        B = cg.body(fn)
+        boxes = [(i, t) for i, t in B.calls() if (t.get('callee') or '').endswith('Box<T>>::new') and any('MemfsFile' in a for a in t['arg_tys'])]
+        ok = bool(boxes)
+        why = []
+        for (i, t) in boxes:
+            l = op_local(t['args'][0])
+            # follow moves back to the named / constructed value
+            for _ in range(4):
+                ds = B.whole_defs(l) if l is not None else []
+                if len(ds) == 1 and ds[0][0] == 'assign' and ds[0][4]['k'] == 'use' and op_local(ds[0][4]['op']) is not None:
+                    l = op_local(ds[0][4]['op'])
+                else:
+                    break
+            good = False
+            ds = B.whole_defs(l) if l is not None else []
+            for d in ds:
+                if d[0] == 'assign' and d[4]['k'] == 'aggregate' and d[4].get('adt', '').endswith('MemfsFile'):
+                    v = sdesc_operand(B, d[4]['ops'][d[4]['fields'].index('path')])
+                    if v == want:
+                        good = True
+            for bi, bj, st in B.assigns():
+                pl = st['place']
+                if pl['l'] == l and len(pl['p']) == 1 and pl['p'][0].get('name') == 'path' and st['rv']['k'] == 'use':
+                    if sdesc_operand(B, st['rv']['op']) == want and B.dominates(bi, i):
+                        good = True
+            if not good:
+                ok = False
+                why.append('the handle boxed at %s does not get path = Some(abs(path)) unconditionally' % B.loc(i))
+        rep.add(rule, 'handlepath:%s' % m, 'Memfs::%s returns a handle whose write-back path is the resolved path argument' % m, ok, '%s:%d' % (B.file, B.line),
+                '' if ok else '; '.join(why or ['no boxed MemfsFile handle found']) + ' — data written through the handle can land in another file (aliasing)')
